@@ -17,15 +17,20 @@ impl<'a> Slow<'a> {
         Slow { data, k, polled_after_end: 0 }
     }
 }
-/// the unchanged builder asks an exhausted source at most three more times
+/// the unchanged builder asks an exhausted source at most three more times, and reads into an empty buffer at most
+/// once per call. After the first detection in a process the limit drops to 10, so that a change which makes every
+/// case loop does not also make the whole sweep take for ever.
 pub const POLL_LIMIT: usize = 1_000;
+static LIMIT_NOW: std::sync::atomic::AtomicUsize = std::sync::atomic::AtomicUsize::new(POLL_LIMIT);
 impl Read for Slow<'_> {
     fn read(&mut self, buf: &mut [u8]) -> std::io::Result<usize> {
         let n = buf.len().min(self.k).min(self.data.len());
-        if self.data.is_empty() && !buf.is_empty() {
+        if self.data.is_empty() || buf.is_empty() {
             self.polled_after_end += 1;
-            if self.polled_after_end > POLL_LIMIT {
-                panic!("NONTERMINATION: the exhausted source was polled more than {POLL_LIMIT} times");
+            let limit = LIMIT_NOW.load(std::sync::atomic::Ordering::Relaxed);
+            if self.polled_after_end > limit {
+                LIMIT_NOW.store(10, std::sync::atomic::Ordering::Relaxed);
+                panic!("NONTERMINATION: the source was asked more than {limit} times although it is exhausted or the buffer offered is empty");
             }
         }
         buf[..n].copy_from_slice(&self.data[..n]);
@@ -217,6 +222,7 @@ fn worker(tier: Tier, wa: &WorkerArgs) -> i32 {
     let mut viol: Vec<Violation> = vec![];
     let mut evals = 0u64;
     let mut nontrivial = 0u64;
+    let mut after_hang = 0u32;
     for (i, c) in cs.iter().enumerate() {
         let idx = i as u64;
         if let Some(o) = wa.only {
@@ -226,6 +232,17 @@ fn worker(tier: Tier, wa: &WorkerArgs) -> i32 {
         } else if i % wa.nshards != wa.shard || wa.resume_after.map(|r| idx <= r).unwrap_or(false) {
             continue;
         }
+        // once non-termination has been seen, every further case of this shape costs its full poll budget; the
+        // verdict is in, a few hundred more cases are looked at and the shard stops
+        if viol.iter().any(|v| v.identity.starts_with("hang:")) {
+            after_hang += 1;
+            if after_hang > 300 {
+                break;
+            }
+        }
+        // the quadratic segment scoring makes cases with huge estimates take seconds (tens of seconds under load);
+        // everything else takes micro- to milliseconds
+        pool::CASE_LIMIT_S.store(if c.estimate >= 1_000_000 || c.len > 5000 { 300 } else { 40 }, std::sync::atomic::Ordering::Relaxed);
         prog.begin_case(idx);
         prog.completed(evals);
         evals += 1;
@@ -291,6 +308,10 @@ pub fn main(tier: Tier, replay: Option<Value>, wa: Option<WorkerArgs>) -> i32 {
                 continue;
             }
             let c = &cs[idx as usize];
+            // a change that makes many cases hang would otherwise be confirmed one 40 s case after the other
+            if run.violations_so_far() >= 4 {
+                continue;
+            }
             let c1 = pool::run_single("C20", tier.name(), idx, &[]);
             if c1.starts_with("completed") {
                 run.machinery_error(format!("worker died at case {idx} ({how}) but the case completes alone"));
